@@ -15,7 +15,8 @@ def oracle(case, out):
     # FINAL must be followed by SETRES of the same key
     for idx, (k, key, arg) in enumerate(evs):
         if k == K["FINAL"]:
-            nxt = evs[idx + 1] if idx + 1 < len(evs) else None
+            # (events of pool threads may be logged in between)
+            nxt = next((e for e in evs[idx + 1:] if e[0] not in (K["B_START"], K["B_END"], K["FREE"])), None)
             if not nxt or nxt[0] != K["SETRES"] or nxt[1] != key:
                 return "final completion of operation %d not stored as its result (event %d)" % (key, idx)
             if nxt[2] != arg:
@@ -61,12 +62,12 @@ def oracle(case, out):
     # dropped, popped afterwards, on a resource that had unread data before that poll, must be Ready
     # (a poll may return early after delivering thread-pool results: require two polls)
     polls = [i for i, st in enumerate(steps) if st[0] == 5 and st[1] >= 5]
-    last_poll = polls[-2] if len(polls) >= 2 and not any(st[0] in (1, 2, 3, 4, 12) for st in steps[polls[-2]:]) else None
+    last_poll = polls[-2] if len(polls) >= 2 and not any(st[0] in (1, 2, 3, 4, 12, 14, 15) for st in steps[polls[-2]:]) else None
     if last_poll is not None and not any(st[0] == 10 for st in steps) and case[0] == 0:
         slot_of_step, ns = {}, 0
         touched = set()
         for i, (o, a, b) in enumerate(steps):
-            if o in (1, 2, 3, 12):
+            if o in (1, 2, 3, 12, 14):
                 slot_of_step[ns] = i
                 ns += 1
             if o in (7, 8, 9):
